@@ -298,7 +298,8 @@ def plan_C03(tier, rng):
             ep = cs.new_ep()
             for v in gens.boundary_ints(ty, 10, rng, 6):
                 cs.write(ep, ty, fid, str(v), c, wo=True, tag="sign-flag-format")
-    models = [("MC_BigNat.tla", "MC_BigNat.cfg", 4, 600)]
+    models = [("MC_BigNat.tla", "MC_BigNat.cfg", 4, 600),
+              ("MC_IntWrite.tla", "MC_IntWrite_quick.cfg" if quick else "MC_IntWrite.cfg", 8, 3600)]
     return cs, models, {"input_families": cs.tags, "configurations": cfgs,
                         "exhaustive_types": small}
 
@@ -1017,7 +1018,12 @@ def plan_C09(tier, rng):
                     if bl >= 0:
                         cs2.write(e["ep"], e["ty"], e["fmt"], e["val"], [e["_cfgname"]], wo=e["wo"], opts=e["opts"], buflen=bl,
                                   place="end", tag="short-buffer")
-    models = []
+    # design level: the longest output of the documented layout fits the documented bound for a grid of options over every
+    # exponent of the type (MC_Bounds), the candidate exponents used on traces are enough (MC_Bounds_exh), and the length
+    # arithmetic is the length of the bytes the reference writer lays out (MC_FloatWrite, invariant LenAgrees)
+    models = [("MC_Bounds.tla", "MC_Bounds_quick.cfg" if quick else "MC_Bounds.cfg", 8, 3600),
+              ("MC_Bounds.tla", "MC_Bounds_exh.cfg", 8, 3600),
+              ("MC_FloatWrite.tla", "MC_FloatWrite_quick.cfg" if quick else "MC_FloatWrite.cfg", 8, 1800)]
     return cs, models, {"input_families": cs.tags, "configurations": cfgs, "phase2": phase2}
 
 
@@ -1604,13 +1610,13 @@ _COMMON = (" Every executed call is judged by TLC walking spec/Trace.tla over th
 LEVEL = {
  "C01": "TLA+ oracle Ieee!CorrectlyRounded on exact BigNat arithmetic (validated against brute force on a toy format by MC_Ieee, against native integers by MC_BigNat) judges every recorded parse::<f32|f64> call: exact halfway expansions per binade and their +-1 perturbations and truncations at the 19/20/768/769/770-digit limits, Eisel-Lemire row straddlers, fast-path limits, overflow/underflow edges, random; complete, partial and with-options API under default, compact, radix+format, compact+radix+format builds." + _COMMON,
  "C02": "TLA+ predicates RoundTrips / IsShortest (convexity shortcut) / IsClosest, proved equal to their definitions on a toy format by MC_Ieee, judge every recorded write::<f32|f64>: all 2046+254 shorter-interval floats, per-binade patterns, the endpoint family (decimals exactly on a closed interval endpoint, k>=17 exhaustively in quick), powers of ten, random bits; compact builds judged for round trip and <= 17/9 digits." + _COMMON,
- "C03": "TLA+ oracle IntWrite!IntWriteWhy (sign, canonical upper-case digits, no leading zero, FromDigits(out) = |v| in BigNat) on u8/i8 exhaustively for all 35 radices (u16/i16 too in thorough) and r^k-1, r^k, r^k+1, MIN, MAX, 64-bit split values for the wider types; decimal output also equal to Rust Display; returned slice starts at the buffer start." + _COMMON,
+ "C03": "TLA+ oracle IntWrite!IntWriteWhy (sign, canonical upper-case digits, no leading zero, FromDigits(out) = |v| in BigNat) on u8/i8 exhaustively for all 35 radices (u16/i16 too in thorough) and r^k-1, r^k, r^k+1, MIN, MAX, 64-bit split values for the wider types; decimal output also equal to Rust Display; returned slice starts at the buffer start. MC_IntWrite: the writer's design (digit count by 4/2/1 digits, fill from the right in 4/2/1-digit chunks, wide values split into zero-padded step-digit parts) on a toy word size, every value of the wide type for 12 radices in thorough: in bounds, filled exactly, canonical, exact; three negative controls." + _COMMON,
  "C04": "TLA+ reference IntParse!IntParseSpec (left-to-right Empty / InvalidDigit(i) / Overflow(i) / Underflow(i), exact BigNat accumulation) judges complete and partial parses of boundary numerals, long zero prefixes, invalid bytes at every position incl. SWAR-window neighbours, all 12 types x 35 radices; MC_IntParse proves on toy widths that the 'unchecked prefix then checked' strategy equals the reference and that overflow_digits+1 breaks it." + _COMMON,
  "C05": "As C01 with FloatExact in any radix / mixed base (CmpScaled via the odd part of the radix): per radix near-halfway strings with 5-140 digits straddling the midpoint, exact halfway expansions for even radices, exponent sweeps over every power-table index, mixed-base hex floats; builds radix and compact+radix+format." + _COMMON,
  "C06": "TLA+ Ieee!ExactlyEqual(FloatExact(scan of the output), M, e) on the written bytes (no parser of the implementation involved) for radix 2/4/8/16/32 and the mixed formats, every sampled binade, default / forced positional / forced scientific notation, then the implementation's parse-back must return the same bits (relation RoundTripAt)." + _COMMON,
  "C07": "Well-formedness by the TLA+ grammar automaton of the same format, |value(out) - v| < 2048 / 256 ulp by Ieee!WithinUlps on the exact value of the string, integers below 2^p exact; values around r^k for every generic radix; both notations; parse-back accepted." + _COMMON,
  "C08": "Relation RoundTripAt over recorded episodes {write, parse of the written bytes with options derived from the write options}: accepted in full, and the same bits where ExactBack says so (integers, zeros, infinities, decimal and power-of-two floats without truncation; NaN -> NaN); MC_FloatWrite shows at the design level that the documented layout is accepted by the grammar of the same format with the same digits." + _COMMON,
- "C09": "Contract WriteAbnormal against the bound the code itself reports (FORMATTED_SIZE[_DECIMAL], buffer_size_const): with buflen >= bound the call returns within the bound; shorter buffers return within the buffer or panic; canary bytes intact; a fault (guard page) is an event TLC rejects. Option grid x extreme values x {bound, bound-1, exact length, length-1, 0} x both guard placements, all writer back-ends, facade." + _COMMON,
+ "C09": "Contract WriteAbnormal against the bound the code itself reports (FORMATTED_SIZE[_DECIMAL], buffer_size_const): with buflen >= bound the call returns within the bound; shorter buffers return within the buffer or panic; canary bytes intact; a fault (guard page) is an event TLC rejects. Option grid x extreme values x {bound, bound-1, exact length, length-1, 0} x both guard placements, all writer back-ends, facade. For decimal float options the reported bound must also cover Bounds!LongestOutput, the longest output of the documented layout over every exponent and digit count of the type (clause BoundCoversLongest), whether or not such a float was written; MC_Bounds checks the documented formula against that maximum on an option grid (negative control: one byte less exponent room fails), MC_FloatWrite ties the length arithmetic to the laid-out bytes." + _COMMON,
  "C10": "Every parse event of the corpus (junk, random bytes, numbers, radix formats; 14 types; complete, partial, with options, facade) must be ok/err with indices <= length (panic / fault / timeout are recorded events TLC rejects), in release and in a debug-assertions + overflow-checks build, inputs abutting a guard page at either end; MC_Scan / MC_IntParse: the reference automaton is total and a dead state stays dead." + _COMMON,
  "C11": "Relation PartialAgreesAt over episodes {partial, complete, complete on the first n bytes (second phase after seeing n)}; MC_IntParse checks the relation on the reference; inputs end in separators, signs, exponent characters, points, suffix letters and prefixes of special strings." + _COMMON,
  "C12": "The documented grammar as a finite automaton (Scan!Step) explored exhaustively by TLC for every syntax-flag format of the catalogue (MC_Scan: all control states, all input lengths) and validated against all 222 upstream doctest assertions (MC_Docs); one witness per transition is replayed on the real complete parsers (f32/f64/i32/u64) and judged three-valued (accept with value / reject / unspecified); STANDARD additionally on all strings <= 4 over the number alphabet with Rust FromStr as referee." + _COMMON,
